@@ -39,6 +39,17 @@ fn gen_history(r: &mut Rng, cfg: &SysCfg, ntypes: u64, len: usize, crashes: bool
     ops
 }
 
+fn witnesses() -> Vec<(SysCfg, u64, Vec<Op>)> {
+    let c2 = SysCfg { event_per_zone: 1, fill_factor: 2, ..Default::default() };
+    let s = |k: u64| Op::S { k, ctx: 0, ty: 0 };
+    vec![
+        // C03-count-dup-flush-window: files written, passive buffer not yet released
+        (c2.clone(), 1, vec![s(1), s(2), Op::Adv, Op::Adv, Op::R, Op::Run, Op::R]),
+        // C03-inflight-hides-published: a second rotation in flight (no files yet) next to a published segment
+        (c2.clone(), 1, vec![s(1), s(2), Op::Run, s(3), s(4), Op::R, Op::R, Op::R, Op::R, Op::R, Op::R, Op::Run, Op::R]),
+    ]
+}
+
 fn main() {
     sys::maybe_child();
     let a = parse_args();
@@ -50,19 +61,27 @@ fn main() {
         }
     };
     let mut st = Stream::create(&a.out, &a.stream);
-    for i in 0..a.cases {
+    let wits = witnesses();
+    let nw = wits.len() as u64;
+    for i in 0..(a.cases + nw) {
         if a.only.is_some_and(|o| o != i) {
             continue;
         }
-        let mut r = Rng::for_case(a.seed, &a.stream, i);
-        let cfg = SysCfg {
-            event_per_zone: 1 + r.below(3) as usize,
-            fill_factor: 1 + r.below(3) as usize,
-            ..Default::default()
+        let (cfg, ntypes, ops) = if i < nw {
+            st.tally("witness_histories");
+            wits[i as usize].clone()
+        } else {
+            let mut r = Rng::for_case(a.seed, &a.stream, i - nw);
+            let cfg = SysCfg {
+                event_per_zone: 1 + r.below(3) as usize,
+                fill_factor: 1 + r.below(3) as usize,
+                ..Default::default()
+            };
+            let ntypes = if r.chance(7, 10) { 1 } else { 2 };
+            let len = 8 + r.below(30) as usize;
+            let ops = gen_history(&mut r, &cfg, ntypes, len, crashes);
+            (cfg, ntypes, ops)
         };
-        let ntypes = if r.chance(7, 10) { 1 } else { 2 };
-        let len = 8 + r.below(30) as usize;
-        let ops = gen_history(&mut r, &cfg, ntypes, len, crashes);
         let root = a.out.join(format!("{}-{i}", a.stream));
         let _ = std::fs::remove_dir_all(&root);
         let mut ex = Exec::start(&root, &cfg, ntypes);
@@ -75,6 +94,7 @@ fn main() {
                 applied.push(*k);
             }
             let racy = *op == Op::R && ex.racy_state();
+            let in_window = *op == Op::R && ex.flush_window();
             if let Some(mut line) = ex.exec(op) {
                 if racy {
                     // oracle still looks at the real answer; the compared line is only the token
@@ -96,7 +116,9 @@ fn main() {
                     let line = &line_j;
                     if *line != want && fail.is_none() {
                         let (wk, gk) = (want.split(' ').next().unwrap().to_string(), line.split(' ').next().unwrap().to_string());
-                        let class = if wk == gk { "count-dup-flush-window" } else { "-" };
+                        // the class applies only while a job is between "files written" and
+                        // "passive buffer released"
+                        let class = if wk == gk && in_window { "count-dup-flush-window" } else { "-" };
                         fail = Some(format!("{class}\top#{n}: want [{want}] got [{line}] in {}", history_line(&cfg, ntypes, &ops)));
                     }
                 }
